@@ -61,6 +61,9 @@ use rumqttd::{ConnectionSettings, RouterConfig};
 use serde::{Deserialize, Serialize};
 use serde_json::json;
 
+/// known finding R5 (recycled connection ids) was repaired in /repo
+const R5_FIXED: bool = true;
+
 pub const ISOLATION_RULE: &str = "E5 isolation (e5_isolation): the e5_flow pair as witnesses (subscriber W2 'iso-w2' on f/# and optionally g/#, publisher W1 'iso-w1' with 20-200 messages in chunks closed by PINGREQ, optionally holding a QoS 0 subscription on g/a itself; optionally a bystander W3 'iso-w3' connected after the adversaries' initial connects) among adversaries 'iso-w', 'iso-w10', 'adv' on real connection tasks (own listener, 8 KiB packet limit), whose generated steps are interleaved with the witness script: plain CONNECT (again on a new stream = takeover of its own connection; storms of up to 5 without waiting), SUBSCRIBE to the witnesses' filters, '#', '+/a', x/#, valid PUBLISH on the witnesses' topics (QoS 0/1: part of the oracle, positioned by a PINGREQ barrier, optional if the barrier fails) and others (QoS 2, never released, only there), Stall (subscribes f/#, g/# and optionally '#', '+/#' with QoS 0-1 and never reads again), unsolicited PUBACK/PUBREC/PUBREL/PUBCOMP, second CONNECT, SUBSCRIBE to '$x' and malformed filters, PUBLISH with wildcard / invalid UTF-8 / empty topic (outside f/ and g/), QoS 3, frames cut at a generated byte (written at once or byte by byte) followed by close, garbage, an oversized frame, DISCONNECT+close, abrupt close, close of the sending direction only; Evict: an adversary in good standing sends a packet for which the router drops it (v5: topic alias 0, unknown alias, subscription identifier in PUBLISH, subscription identifier 0 - answered by DISCONNECT with a reason code; any version: unsolicited PUBACK/PUBREC/PUBCOMP, PUBREL for an unknown id, SUBSCRIBE to $x) and keeps its socket open, while one or two late bystanders 'iso-w4-0', 'iso-w4-1', ... write their CONNECT right before / behind it without anything awaited in between (so that they are given the slot just lost), must be admitted, optionally subscribe (QoS 0) to f/# or g/# and are then owed every later message, and must be alive at the end; left out when a late signal of an earlier connection cannot be excluded from the code (known finding R5: every stream the client closed must have a finished task, every other ended stream must be open, drained and dropped by the router). Oracle: e5_flow's on the witnesses (exact ordered delivery incl. the adversaries' valid publishes, exact acknowledgements to W1, window, liveness by the quiescence detector), all witness tasks alive and answering PINGREQ at the end, no panic in any connection task or the router. Non-trivial: >=1 adversary connection closed by the broker, stalled or taken over, while the witnesses exchanged >=20 messages.";
 
 const WITNESS_IDS: [&str; 2] = ["iso-w2", "iso-w1"];
@@ -638,6 +641,13 @@ impl Adversaries<'_> {
     /// `start()` returns `Ok(())` after writing the DISCONNECT and `remote()` sends
     /// `Disconnect(id)` for the slot the bystander has just been given.
     async fn late_ok(&mut self) -> bool {
+        // R5 was repaired in /repo (a link addresses the router with a token that carries the
+        // serial number of its registration; stale tokens are ignored): the gate below is what
+        // kept the finding out while it was open. Late bystanders now connect whatever the
+        // graveyard holds, so the repair itself is exercised end to end.
+        if R5_FIXED {
+            return true;
+        }
         for _ in 0..8 {
             if self.graveyard.iter().all(|(c, ended)| (*ended == Ended::Silent && c.is_open()) || c.task_finished()) {
                 return true;
